@@ -146,4 +146,50 @@ Section Geo.
     if forallb (fun a => nltb O zero a) out then
       Some (l0, if latlon then repeat one (Nat.min 2 (length out)) ++ skipn 2 out else out)
     else None.
+
+  (* ---- the geometry parameters of one CovModel object as a state machine (non lat-lon):
+     every setter that touches them, as in covmodel/base.py.  An exception raised by set_len_anis / set_dim
+     happens before any assignment, so the state is unchanged (None of set_len_anis). *)
+  Record geo := mkGeo { g_dim : nat; g_len : T; g_anis : list T; g_angles : list T; g_temporal : bool }.
+  Inductive geo_op :=
+  | OpLen (ls : list T)        (* model.len_scale = scalar / list (integral_scale lists go through it too) *)
+  | OpAnis (a : list T)        (* model.anis = ... *)
+  | OpAngles (a : list T)      (* model.angles = ... *)
+  | OpDim (d : nat).           (* model.dim = d *)
+
+  Definition geo_step (s : geo) (op : geo_op) : geo :=
+    match op with
+    | OpLen ls =>
+        match set_len_anis (g_dim s) ls (g_anis s) false with
+        | Some (l, an) => mkGeo (g_dim s) l an (g_angles s) (g_temporal s)
+        | None => s
+        end
+    | OpAnis a =>
+        match set_len_anis (g_dim s) [g_len s] a false with
+        | Some (l, an) => mkGeo (g_dim s) l an (g_angles s) (g_temporal s)
+        | None => s
+        end
+    | OpAngles a => mkGeo (g_dim s) (g_len s) (g_anis s) (set_model_angles (g_dim s) a false (g_temporal s)) (g_temporal s)
+    | OpDim d =>
+        if Nat.ltb d 1 then s
+        else match set_len_anis d [g_len s] (g_anis s) false with
+             | Some (l, an) => mkGeo d l an (set_model_angles d (g_angles s) false (g_temporal s)) (g_temporal s)
+             | None => s
+             end
+    end.
+
+  (* CovModel.__init__ *)
+  Definition geo_init (dim : nat) (ls anis angles : list T) (temporal : bool) : option geo :=
+    match set_len_anis dim ls anis false with
+    | Some (l, an) => Some (mkGeo dim l an (set_model_angles dim angles false temporal) temporal)
+    | None => None
+    end.
+
+  (* what every evaluation of the model sees: a function of the PRESENT state only *)
+  Definition geo_isometrize (s : geo) (pos : list (list T)) := isometrize (g_dim s) (g_angles s) (g_anis s) pos.
+  Definition geo_anisometrize (s : geo) (pos : list (list T)) := anisometrize (g_dim s) (g_angles s) (g_anis s) pos.
+  Definition geo_iso_rad (s : geo) (pos : list (list T)) := get_iso_rad (g_dim s) (g_angles s) (g_anis s) pos.
 End Geo.
+Arguments OpLen {T}. Arguments OpAnis {T}. Arguments OpAngles {T}. Arguments OpDim {T}.
+Arguments g_dim {T}. Arguments g_len {T}. Arguments g_anis {T}. Arguments g_angles {T}. Arguments g_temporal {T}.
+Arguments mkGeo {T}.
